@@ -23,8 +23,19 @@ static void judge(Ctx& ctx, const Case& c, bool from_replay) {
   Clipper64 clipper;
   clipper.PreserveCollinear(pc);
   clipper.ReverseSolution(rev);
-  clipper.AddSubject(S);
-  clipper.AddClip(C);
+  // loading route: the region may not depend on how and in which order the same paths are handed over (directly, path
+  // by path, or through ReuseableDataContainer64 objects, which must outlive Execute)
+  const int route = (int)c.geti("route", 0);
+  ReuseableDataContainer64 rd_s, rd_c, rd_all;
+  switch (route) {
+    case 1: clipper.AddClip(C); clipper.AddSubject(S); break;
+    case 2: rd_all.AddPaths(S, PathType::Subject, false); rd_all.AddPaths(C, PathType::Clip, false); clipper.AddReuseableData(rd_all); break;
+    case 3: rd_c.AddPaths(C, PathType::Clip, false); clipper.AddSubject(S); clipper.AddReuseableData(rd_c); break;
+    case 4: rd_s.AddPaths(S, PathType::Subject, false); rd_c.AddPaths(C, PathType::Clip, false); clipper.AddReuseableData(rd_c); clipper.AddReuseableData(rd_s); break;
+    case 5: for (size_t k = S.size(); k-- > 0;) clipper.AddSubject(Paths64{ S[k] }); for (auto& p : C) clipper.AddClip(Paths64{ p }); break;
+    default: clipper.AddSubject(S); clipper.AddClip(C); break;
+  }
+  ctx.count("load_route_" + std::to_string(route));
   Paths64 sol;
   bool ok = clipper.Execute((ClipType)ct, (FillRule)fr, sol);
   ctx.evaluated();
@@ -157,6 +168,7 @@ void vf_case(Ctx& ctx, uint64_t i) {
   c.p64["S"] = sc.subj; c.p64["C"] = sc.clip;
   c.seti("ct", 1 + (combo & 3)); c.seti("fr", (combo >> 2) & 3);
   c.seti("pc", (combo >> 4) & 1); c.seti("rev", (combo >> 5) & 1);
+  { static const int kRoute[] = { 0, 0, 0, 1, 2, 3, 4, 5 }; c.seti("route", kRoute[(i / 64 + i / 5) % 8]); }
   c.seti("mag", magexp); c.seti("shape", sc.shape); c.seti("crossings", sc.crossings); c.seti("vacuous", sc.vacuous);
   ctx.count("mag_2^" + std::to_string(magexp));
   ctx.count("shape_" + std::to_string(sc.shape));
